@@ -93,8 +93,10 @@ type funcContract struct {
 	modifies []*clause
 	modAll   bool
 	hasMod   bool
+	rawStores bool
 	inline   map[string]bool
 	concrete map[string]bool
+	inlLoops map[string]map[int]*loopSpec // loop clauses for inlined callees, by callee key
 	loops    map[int]*loopSpec
 	sites    []*siteSpec
 	mayPanic bool
@@ -141,7 +143,7 @@ type pkgContracts struct {
 	text     string
 }
 
-var kwRe = regexp.MustCompile(`^(mode|rawfield|spec|pred|ufun|axiom|lemma|func|property|trusted|requires|ensures|deep|modifies|inline|loop|at|maypanic|panics-unless|seam|opaque|using|by|noframe|raw|noreturn|ghost|reads|guard|concrete|rawtype)\b`)
+var kwRe = regexp.MustCompile(`^(mode|rawfield|spec|pred|ufun|axiom|lemma|func|property|trusted|requires|ensures|deep|modifies|inline|loop|at|maypanic|panics-unless|seam|opaque|using|by|noframe|raw|noreturn|ghost|reads|guard|concrete|rawtype|rawstores)\b`)
 
 func loadContracts(dir, pkgPath string) (*pkgContracts, error) {
 	file := filepath.Join(dir, "zz_contracts_verif.go")
@@ -290,6 +292,8 @@ func (fc *funcContract) addClause(kw, rest string, line int) error {
 		fc.props = strings.Fields(rest)
 	case "trusted":
 		fc.trusted = true
+	case "rawstores":
+		fc.rawStores = true
 	case "opaque":
 		fc.opaque = true
 	case "noframe":
@@ -404,6 +408,20 @@ func (fc *funcContract) addClause(kw, rest string, line int) error {
 	case "loop":
 		// loop k (hint) invariant expr | unroll N | decreases expr
 		// loop k (hint) kind body ; the hint may contain balanced parentheses
+		// loop Callee.k ... : clauses for loop k of an inlined callee (replace the callee's own)
+		loopsOfFc := &fc.loops
+		if m := regexp.MustCompile(`^([A-Za-z_(][A-Za-z0-9_*(). $]*?)\.(\d+)`).FindStringSubmatch(rest); m != nil && !regexp.MustCompile(`^\d`).MatchString(rest) {
+			if fc.inlLoops == nil {
+				fc.inlLoops = map[string]map[int]*loopSpec{}
+			}
+			callee := strings.TrimSpace(m[1])
+			if fc.inlLoops[callee] == nil {
+				fc.inlLoops[callee] = map[int]*loopSpec{}
+			}
+			mm := fc.inlLoops[callee]
+			loopsOfFc = &mm
+			rest = rest[len(m[1])+1:]
+		}
 		hint := ""
 		if m0 := regexp.MustCompile(`^(\d+)\s*\(`).FindString(rest); m0 != "" {
 			d := 0
@@ -431,13 +449,13 @@ func (fc *funcContract) addClause(kw, rest string, line int) error {
 		}
 		m[3] = hint
 		k, _ := strconv.Atoi(m[1])
-		if fc.loops == nil {
-			fc.loops = map[int]*loopSpec{}
+		if *loopsOfFc == nil {
+			*loopsOfFc = map[int]*loopSpec{}
 		}
-		ls := fc.loops[k]
+		ls := (*loopsOfFc)[k]
 		if ls == nil {
 			ls = &loopSpec{ord: k, line: line}
-			fc.loops[k] = ls
+			(*loopsOfFc)[k] = ls
 		}
 		if m[3] != "" {
 			ls.hint = m[3]
